@@ -13,7 +13,11 @@ NUMBER_TEXTS = ['0', '1', '7', '12', '3.5', '1.', '10e+2', '2.5e-3', '007', '0.1
 IDENTS = ['a', 'b', 'x', 'xy', 'foo', '_u', 'a1', 'true', 'false', 'null', 'Zz_9', 'e', 'if2', 'in', 'endif']
 CALL_NAMES = ['foo', 'if', 'max', 'f2', '__x', 'arrayNew', 'xy']
 STRING_VALUES = ['', 'a', 'a b', "it's", 'x\\y', '"q"', '#', 'a,b)', '\\', "'", '\\n', 'é\U0001f600', '(', ' ', "a'b'c", 'tab\t', '1 + 2', ':', '\\\\']
-BRACKET_NAMES = ['a b', 'x.y', 'a]b', '1st', 'a', 'Ünï', 'a[b', 'a\\b', 'x y z', '+', "q'r"]
+BRACKET_NAMES = ['a b', 'x.y', 'a]b', '1st', 'a', 'Ünï', 'a[b', 'a\\b', 'x y z', '+', "q'r", 'a](b', 'f](n', "a]'b", 'x]"y', '(', ')', 'g(x', '"q"', 'a]]b', ']',
+                 'a])b', "it's]('"]
+# number literals beyond the double range (the literal denotes what float() makes of its text); only where a check asks for them
+OVERFLOW_NUMBER_TEXTS = ['1e+999', '2e+308', '1' + '0' * 310, '9e+308', '1.8e+308']
+WIDE = {'numbers': False}
 
 
 def quote_single(value, rnd=None):
@@ -56,7 +60,7 @@ def bracket(name):
 def gen_leaf(rnd, idents=IDENTS):
     k = rnd.random()
     if k < 0.3:
-        t = rnd.choice(NUMBER_TEXTS)
+        t = rnd.choice(OVERFLOW_NUMBER_TEXTS) if WIDE['numbers'] and rnd.random() < 0.1 else rnd.choice(NUMBER_TEXTS)
         return ('num', t, float(t))
     if k < 0.45:
         v = rnd.choice(STRING_VALUES)
